@@ -15,4 +15,4 @@ else
   rm -f _CoqProject.new
   [ -f Makefile ] || coq_makefile -f _CoqProject -o Makefile >/dev/null
 fi
-exec timeout ${COQ_TIMEOUT:-3000} make -j16 "$@"
+exec timeout ${COQ_TIMEOUT:-3000} make -k -j16 "$@"   # -k: a broken proof must not keep the (proof-free) Model/Run files from being built
